@@ -11,7 +11,7 @@ TB = ("Trusted base: Lean 4.33 kernel (axioms propext, Classical.choice, Quot.so
 CHECKS = {
  "C01": ("proof", "Lean 4 theorems (*_isPartition for every partitioner incl. CKK/SNP/RNP, cg_result, cg_some_of_no_limit, multifit_bins_le, termination theorems) + model/code correspondence + verified checker",
          "Full: every partitioner's model is proved to return a partition of the input into k bins (multifit: at most k), complete greedy never returns None without a limit, the searches terminate with explicit fuel; RNP for k <= 5 (after fix F10; k >= 6 is known finding KF1); ILP read-back proved, solver trusted. Strict correspondence of every model with the code on every run; every implementation output also judged by the verified checker checkPartition.", TB),
- "C02": ("proof", "Lean 4 optimality theorems (dp_optimal, cg_optimal for all 16 switch combinations x 5 objectives, ckkF_optimal, snp_optimal', rnpF_optimal, ILP unit_weights_wlog) + correspondence + certified evaluation against the verified DP oracle",
+ "C02": ("proof", "Lean 4 optimality theorems (dp_optimal, cg_optimal for all 16 switch combinations x 5 objectives, ckkF_optimal, snp_optimal', rnpF_optimal, ILP unit_weights_wlog) + correspondence (answers, and the search traces of CKK, SNP, RNP: ckkFT_fst, snpT_fst, rnpFT_fst) + certified evaluation against the verified DP oracle",
          "Full for DP, complete greedy, CKK (both managers), SNP and RNP (k <= 5, after F10 - the defect was found by the proof attempt); ILP: the formulation's optimum is proved to be the true optimum, the MIP solver is trusted and certified per run. Every exact algorithm's output is additionally compared with the verified oracle on every run.", TB),
  "C03": ("proof", "Lean 4 theorems ff/ffd/bf/bfd_isPacking, bc_isPacking + correspondence + verified checker",
          "Full: feasibility, completeness and non-empty bins proved for the four fit heuristics in every arrival order and for bin completion (list input; zero-valued items dropped). Strict correspondence incl. bin sizes up to 2^40 and dyadic fractions; the helpers of bin completion's search are compared directly.", TB),
@@ -21,8 +21,8 @@ CHECKS = {
          "Full: each covering algorithm's model is proved to return a valid cover wasting less than one bin, for all inputs; strict correspondence with the code.", TB),
  "C06": ("proof", "Lean 4 theorems (consistency of every algorithm's result, outputs_from_partition, *_sums_values, snp/rnpF_sums_manager_independent, ckkF_sums_manager_independent; refutation ckk_sums_manager_dependent of the code before fix F11) + model-side output projection + correspondence across all output types",
          "Reported sums = totals of the reported bins is part of every validity theorem; every output type is a proved function of the bins (the model projects it); the sums-only manager's run returns the same sum vector as the contents manager's run for every algorithm (for complete Karmarkar-Karp this was false on the pinned tree - found by the proof attempt, repaired by fix F11, proved for the repaired code). Every case is run once per output type of prtpy.out and the statement itself is evaluated on the implementation.", TB),
- "C07": ("proof", "Lean 4 naturality theorems (alg (map f) = mapItems f . alg) for 15 algorithms, injective-renaming naturality and list-vs-named equality of the sum vector (ckkF_list_dict_sums, snp_list_dict_sums) for CKK/SNP/RNP + validity theorems generic in the value function + correspondence across the five input formats",
-         "Full for the fold-shaped algorithms, KK, CG, CBLDM, DP (any renaming, so repeated values in list input are covered); for CKK and SNP full as well (equivariance under injective renamings + equality of the whole sum vector with the run on the bare values; for CKK after fix F11, the statement was false before); PARTIAL for RNP with 4-5 bins on list input with repeated values (same spread proved; same vector compared on every run); each case is presented as list, numpy array, dict (string and integer names) and names+valueof and compared strictly with the model; known finding KF4 (bin_completion computes on names).", TB),
+ "C07": ("proof", "Lean 4 naturality theorems (alg (map f) = mapItems f . alg) for 15 algorithms, injective-renaming naturality and list-vs-named equality of the sum vector (ckkF_list_dict_sums, snp_list_dict_sums, rnpF_list_dict_sums) for CKK/SNP/RNP + validity theorems generic in the value function + correspondence across the five input formats",
+         "Full for the fold-shaped algorithms, KK, CG, CBLDM, DP (any renaming, so repeated values in list input are covered); for CKK and SNP full as well (equivariance under injective renamings + equality of the whole sum vector with the run on the bare values; for CKK after fix F11, the statement was false before); for RNP (k <= 5) by RNPDict.rnpF_list_dict_sums; each case is presented as list, numpy array, dict (string and integer names) and names+valueof and compared strictly with the model; known finding KF4 (bin_completion computes on names).", TB),
  "C08": ("proof", "Lean 4 theorems greedy_four_thirds (Graham), kk_four_thirds, greedy/kk/roundrobin_gap, roundrobin_monotone/cards, multifit_ratio_four_thirds, greedy_maxmin_partial_* + verified DP oracle for the remaining sharp ratios",
          "Gap bounds and round-robin structure full; 4/3 - 1/(3k) proved in full for LPT and for Karmarkar-Karp; PARTIAL: LPT's max-min ratio proved as 2k/(3k-1) (exact ratio under a window hypothesis), multifit proved <= (5/4 + 2^-it) OPT instead of 1.22 + 2^-it; the sharp constants are searched for counter-examples with the verified oracle on every run.", TB),
  "C09": ("proof", "Lean 4 theorems ff/bf(±decreasing)_anyfit, ff/bf_seventeen_tenths_strong (<= 1.7 OPT + 1), ffd/bfd_three_halves, ffd/bfd_partial_four_thirds + verified optBins oracle",
